@@ -327,12 +327,13 @@ impl Encoder for Codec {
                 }
             }
             Encoded::Publish(pkt, buf) => {
-                let content_size = pkt.encoded_size(max_size) as u32;
-                if content_size > max_size {
+                let content_size = pkt.encoded_size(max_size);
+                if content_size > max_size as usize {
                     return Err(EncodeError::OverMaxPacketSize);
                 }
+                let content_size = content_size as u32; // safe: max_size <= u32 max value
 
-                pkt.encode(dst, content_size)?; // safe: max_size <= u32 max value
+                pkt.encode(dst, content_size)?;
 
                 let remaining = if let Some(buf) = buf {
                     let remaining = pkt.payload_size - buf.len() as u32;
